@@ -42,30 +42,7 @@ func runC11(c *Ctx, r *Report, tier string) {
 	fx := c.newFacts(cv)
 	_ = fx
 
-	kindsAt := func(in ssa.Instruction) []int64 {
-		var best []int64
-		for _, f := range c.domFacts(in.Block()) {
-			alts := f.Alts
-			if alts == nil {
-				alts = []DomFact{f}
-			}
-			var all []int64
-			ok := true
-			for _, a := range alts {
-				sub, ks, isK := c.kindFact(a.Cond, a.Pos)
-				if !isK || sub != "V:P1" {
-					ok = false
-					break
-				}
-				all = append(all, ks...)
-			}
-			if ok && (best == nil || len(all) < len(best)) {
-				best = all
-			}
-		}
-		sort.Slice(best, func(i, j int) bool { return best[i] < best[j] })
-		return best
-	}
+	kindsAt := func(in ssa.Instruction) []int64 { return c.kindsAt(in, "V:P1") }
 	ks := func(k ...reflect.Kind) string {
 		var v []int64
 		for _, x := range k {
@@ -313,6 +290,7 @@ func runC11(c *Ctx, r *Report, tier string) {
 	}
 	// generic: boolean phi with a `true` edge whose block is guarded by the equality
 	var trueEdges []*ssa.BasicBlock
+	nEqFlag := 0
 	for _, b := range c.blocks(set) {
 		for _, in := range b.Instrs {
 			p, ok := in.(*ssa.Phi)
@@ -322,6 +300,12 @@ func runC11(c *Ctx, r *Report, tier string) {
 			for i, e := range p.Edges {
 				if c.term(e) == "true" {
 					trueEdges = append(trueEdges, p.Block().Preds[i])
+				}
+				// `found = choices[i] == *value`: the flag IS the exact comparison
+				if l := c.cond(e); l.Pos && (strings.HasPrefix(l.Term, "eq(*(P1), idx(Option.Choices(P0), ") || strings.HasPrefix(l.Term, "eq(idx(Option.Choices(P0), ") && strings.HasSuffix(l.Term, ", *(P1))")) {
+					if _, isBin := e.(*ssa.BinOp); isBin {
+						nEqFlag++
+					}
 				}
 			}
 		}
@@ -357,7 +341,7 @@ func runC11(c *Ctx, r *Report, tier string) {
 	eqLit := func(l Lit) bool {
 		return l.Pos && strings.HasPrefix(l.Term, "eq(*(P1), idx(Option.Choices(P0), ") || l.Pos && strings.HasPrefix(l.Term, "eq(idx(Option.Choices(P0), ") && strings.HasSuffix(l.Term, ", *(P1))")
 	}
-	if len(trueEdges)+len(trueRets) == 0 {
+	if len(trueEdges)+len(trueRets)+nEqFlag == 0 {
 		r.Fail("CHOICE", sn, "membership flag", "", "no boolean set to true found in Set")
 	}
 	for _, ret := range trueRets {
@@ -381,6 +365,10 @@ func runC11(c *Ctx, r *Report, tier string) {
 		for _, l := range c.loopsDeep(f) {
 			iff, ok := l.Header.Instrs[len(l.Header.Instrs)-1].(*ssa.If)
 			if ok && strings.HasPrefix(c.cond(iff.Cond).Term, "lt((phi{(phi↺ + 1) | -1} + 1), len(Option.Choices(P0)))") {
+				okLoop = true
+			}
+			// counted form: for i := 0; i < len(choices) [&& !found]; i++
+			if ok && c.cond(iff.Cond).Term == "lt(phi{(phi↺ + 1) | 0}, len(Option.Choices(P0)))" {
 				okLoop = true
 			}
 		}
